@@ -2896,6 +2896,85 @@ def r03_23(ctx, counts) -> RuleResult:
     return res
 
 
+def r03_24(ctx, counts) -> RuleResult:
+    """a value is not rebuilt in the class of a numeric argument unless it fits that class"""
+    from ..engine.cfg import CFG
+    from ..engine.dataflow import branch_facts
+    from .common import try_context, handler_names
+    model: Model = ctx.model
+    res = RuleResult(
+        'R03.24', 'DYNAMIC-CLASS-RANGE',
+        '`type(X)(E)` rebuilds a result in the class of the argument X. For a numeric argument '
+        'that class can be a type derived from xs:integer with a range (xs:byte, '
+        'xs:positiveInteger, ..) whose constructor raises ValueError for a value outside it. '
+        'Every such call in the evaluation code is (a) under a fact that X is not an int '
+        '(`isinstance(X, float)`, `not isinstance(X, int)`, the else-arm of a conditional '
+        'expression on `isinstance(X, int)`), or (b) E is an integral identity image of X — X '
+        'itself, math.floor(X), math.ceil(X), or N.to_integral_value(..) with N = Decimal(X): the '
+        'value of an integer is unchanged by them — or (c) inside a try whose handlers cover '
+        'ValueError. round(xs:byte(125), -1) rebuilt 130 as an xs:byte.')
+    n = 0
+    for f in sorted(model.all_functions(), key=lambda q: q.key):
+        if not f.module.name.startswith('elementpath.xpath'):
+            continue
+        calls = [c for c in walk_local(f.node) if isinstance(c, ast.Call) and len(c.args) == 1
+                 and isinstance(c.func, ast.Call) and dotted(c.func.func) == 'type'
+                 and len(c.func.args) == 1 and isinstance(c.func.args[0], ast.Name)]
+        if not calls:
+            continue
+        cfg = CFG(f.node)
+        facts = branch_facts(cfg)
+        tc = try_context(f.node)
+        parent = {id(ch): p_ for p_ in ast.walk(f.node) for ch in ast.iter_child_nodes(p_)}
+        decimals = {t.id: stmt_text(x.value.args[0]) for x in walk_local(f.node)
+                    if isinstance(x, ast.Assign) and isinstance(x.value, ast.Call)
+                    and dotted(x.value.func).split('.')[-1] == 'Decimal' and len(x.value.args) == 1
+                    for t in x.targets if isinstance(t, ast.Name)}
+        for c in calls:
+            x = c.func.args[0].id
+            e = c.args[0]
+            n += 1
+            holder = [nd for nd in cfg.nodes if nd.ast is not None and nd.kind in ('stmt', 'test')
+                      and any(y is c for y in ast.walk(nd.ast))]
+            fs = facts[holder[0].id] if holder else set()
+            not_int = any(fa in (f'+isinstance({x}, float)', f'-isinstance({x}, int)',
+                                 f'+isinstance({x}, Decimal)', f'+isinstance({x}, decimal.Decimal)')
+                          for fa in fs)
+            p_ = parent.get(id(c))
+            while p_ is not None and not isinstance(p_, ast.stmt):
+                if isinstance(p_, ast.IfExp) and stmt_text(p_.test) == f'isinstance({x}, int)' \
+                        and any(y is c for y in ast.walk(p_.orelse)):
+                    not_int = True
+                p_ = parent.get(id(p_))
+            et = stmt_text(e)
+            identity = et == x or et in (f'math.floor({x})', f'math.ceil({x})') or (
+                isinstance(e, ast.Call) and isinstance(e.func, ast.Attribute)
+                and e.func.attr == 'to_integral_value' and isinstance(e.func.value, ast.Name)
+                and decimals.get(e.func.value.id) == x)
+            covered: set[str] = set()
+            for tr, part in tc.get(id(c), []):
+                if part == 'body':
+                    for h in tr.handlers:
+                        covered |= {z.split('.')[-1] for z in handler_names(model, f.module, h)}
+            handled = bool(covered & {'ValueError', 'Exception', 'BaseException'})
+            why = 'not an int' if not_int else 'identity image' if identity else \
+                'ValueError handled' if handled else None
+            res.instances.append(f'{f.key}: L{c.lineno} `{stmt_text(c)[:40]}`: {why}')
+            if why:
+                res.ok()
+            else:
+                res.fail(finding('R03.24', f, c, f'type({x})(..) of a computed value',
+                                 f'`{stmt_text(c)[:50]}` rebuilds a computed value in the class of '
+                                 f'`{x}`, which can be a type derived from xs:integer with a range '
+                                 f'(xs:byte, xs:positiveInteger): its constructor raises a bare '
+                                 f'ValueError when the value is outside (round(xs:byte(125), -1) '
+                                 f'= 130)'))
+    counts['dynamic_class_constructions'] = n
+    if n < 4:
+        raise AnalysisError(f'type(X)(..) constructions located: {n} < 4')
+    return res
+
+
 def run(ctx) -> dict:
     counts: dict[str, int] = {}
     results = [r03_1(ctx, counts), r03_2(ctx, counts), r03_3(ctx, counts), r03_4(ctx, counts),
@@ -2905,7 +2984,8 @@ def run(ctx) -> dict:
                r03_14(ctx, counts), r03_15(ctx, counts),
                r03_16(ctx, counts), r03_17(ctx, counts), r03_18(ctx, counts),
                r03_19(ctx, counts), r03_20(ctx, counts),
-               r03_21(ctx, counts), r03_22(ctx, counts), r03_23(ctx, counts)]
+               r03_21(ctx, counts), r03_22(ctx, counts), r03_23(ctx, counts),
+               r03_24(ctx, counts)]
     # "no call hangs": the lock discipline of C19 is a necessary condition (a lock left held on
     # an error path blocks every later evaluation that needs it)
     from . import c19_global
